@@ -429,6 +429,18 @@ def common_fid(data):
 
 def gen_file(rng, small=True):
     doc = recipe.gen_doc(rng, max_changes=2, max_files=2, enc_p=0.35)
+    if rng.random() < 0.15:
+        # a CRLF diff that carries lines ending in a bare LF in the middle
+        # (GNU diff / git write the "no newline" marker that way): a cut
+        # right after such an LF leaves content that does NOT end in the
+        # section's newline
+        for kind, sec, inh in recipe.iter_content(doc):
+            if kind == 'diff' and not sec.get('encoding'):
+                sec['data'] = (b'--- a\r\n+++ b\r\n@@ -1,2 +1,2 @@\r\n-a\r\n'
+                               b'\\ No newline at end of file\n+b\r\n'
+                               b' lone LF line\n c\r\n'
+                               b'\\ No newline at end of file\n+d\r\n')
+                sec['line_endings'] = rng.choice([None, 'dos'])
     r = rng.random()
     style = None
     if r < 0.2:
